@@ -316,6 +316,59 @@ theorem export_never_overwrites (root : Nat) (keys : List Key) (hnd : keys.Nodup
   · rw [if_neg hk] at hchg
     exact absurd rfl hchg
 
+/-- a failed compare-and-swap leaves the ref where it is -/
+theorem delRes_err (cur : Option Nat) (o : Nat) (r : FailReason) (h : (delRes cur o).1 = some r) :
+    (delRes cur o).2 = cur := by
+  unfold delRes at h ⊢
+  cases cur with
+  | none => simp at h
+  | some c => by_cases hco : c = o <;> simp [hco] at h ⊢
+
+theorem updRes_err (cur old : Option Nat) (c : Nat) (r : FailReason) (h : (updRes cur old c).1 = some r) :
+    (updRes cur old c).2 = cur := by
+  unfold updRes at h ⊢
+  cases old with
+  | none =>
+    cases cur with
+    | none => simp at h
+    | some c' => by_cases hcc : c' = c <;> simp [hcc] at h ⊢
+  | some o =>
+    cases cur with
+    | none => simp
+    | some c' =>
+      by_cases hco : c' = o
+      · simp [hco] at h
+      · by_cases hcc : c' = c <;> simp [hco, hcc] at h ⊢
+
+/-- **failed exports are recorded and change nothing**: a branch reported in `failed_bookmarks` keeps
+its Git value, its `git_refs` record and its `@git` record (so the next import still sees the
+difference and the next export retries). -/
+theorem failed_export_leaves_state (root : Nat) (keys : List Key) (hnd : keys.Nodup) (v : View) (git : Git)
+    (n : Nat) (hf : isFailed (exportRefs root keys v git).failed (n, 0) = true) :
+    (exportRefs root keys v git).git (n, 0) = git (n, 0) ∧
+    (exportRefs root keys v git).view.gitRefs (n, 0) = v.gitRefs (n, 0) ∧
+    ((exportRefs root keys v git).view.remotes (n, 0)).target = (v.remotes (n, 0)).target ∧
+    (exportRefs root keys v git).view.locals n = v.locals n := by
+  obtain ⟨hloc, hobs, hfailed, _, htarget⟩ := exportRefs_spec root keys hnd v git
+  rw [hfailed] at hf
+  obtain ⟨x, hx, hxk⟩ := (isFailed_true_iff _ _).mp hf
+  obtain ⟨hk, hcase⟩ := exportRefsToGit_failed root keys hnd v git x hx
+  rw [hxk] at hk hcase
+  have hgo : obs (exportRefsToGit v git (diffRefsToExport root keys v)) (n, 0) = (git (n, 0), v.gitRefs (n, 0)) := by
+    rw [exportRefsToGit_obs root keys hnd v git, if_pos hk]
+    rcases hcase with h | ⟨o, h1, h2⟩ | ⟨old, c, h1, h2⟩
+    · rw [h]
+    · rw [h1]; simp only [fDel, h2, delRes_err _ _ _ h2]
+    · rw [h1]; simp only [fUpd, h2, updRes_err _ _ _ _ h2]
+  have h1 := hobs (n, 0)
+  rw [hgo] at h1
+  have hg := congrArg Prod.fst h1
+  have hr := congrArg Prod.snd h1
+  simp only at hg hr
+  refine ⟨hg, hr, ?_, by rw [hloc]⟩
+  rw [htarget n hk]
+  simp [copyCond, hf]
+
 /-! ### non-vacuity: concrete histories -/
 
 /-- commits 1 and 2 are unrelated children of the root 0; 3 is a child of 1 -/
@@ -344,5 +397,18 @@ example : (exportRefs 0 exKeys (importRefs (isAncestor exDag) false exKeys (exVi
 -- export without import while Git moved: compare-and-swap fails, Git's value survives, failure recorded
 example : (exportRefs 0 exKeys (exView.setLocal 1 (normal 2)) (setAt exGit (1, 0) (some 3))).git (1, 0) = some 3 ∧
     (exportRefs 0 exKeys (exView.setLocal 1 (normal 2)) (setAt exGit (1, 0) (some 3))).failed = [((1, 0), .failedToSet)] := by decide
+
+-- the hypotheses of the main theorems are satisfiable by these histories
+example := import_adopts_git_change (isAncestor exDag) false exKeys (by decide) exView
+  (setAt exGit (0, 0) (some 2)) 0 (by decide) (by decide) (by decide)
+example := export_writes_jj_change 0 exKeys (by decide) (exView.setLocal 1 (normal 3)) exGit 1
+  (by decide) (by decide) (by decide) (by decide)
+example := two_sided_conflict_recorded (isAncestor exDag) false 0 exKeys (by decide)
+  (exView.setLocal 1 (normal 2)) (setAt exGit (1, 0) (some 3)) 1 (by decide) (some 2) (some 1)
+  (by decide) (by decide) (by decide) (by decide) (by decide)
+  (by show Unrelated _ (some 2) (some 3); unfold Unrelated; decide) (by decide)
+example := failed_export_leaves_state 0 exKeys (by decide) (exView.setLocal 1 (normal 2))
+  (setAt exGit (1, 0) (some 3)) 1 (by decide)
+example := export_never_overwrites 0 exKeys (by decide) (exView.setLocal 1 (normal 3)) exGit (1, 0) (by decide)
 
 end JjModel.C34
